@@ -156,6 +156,13 @@ def run(ck: Checker):
     probs += nested_rewrap_problems(ck)[1]
     ck.ob('C15-5', ered, r[0] if r else ered.node, not probs, '; '.join(probs) if probs else 'EnsembleError round-trips through its results dict; nested BaseException members are re-wrapped in RemoteException')
 
+    # a failure keeps its traceback text over SEVERAL hops only if every hop that forwards it wraps it again: an exception
+    # that arrived from an upstream process stage is a bare exception object here (its RemoteTraceback is its __cause__)
+    from . import c04
+
+    with ck.as_rule('C15-6', 'every hop re-wraps: an exception value that a worker or a compound servlet puts on an output queue is wrapped in RemoteException on every path (the C04-2 obligations) — forwarded bare, it is pickled without its __cause__: the next stage sees a non-remote exception without text, and its own RemoteException(x) raises ValueError', minimum=8):
+        c04.check_all_wrapping(ck, 'C04-2')
+
 
 def nested_rewrap_problems(ck: Checker):
     """(init FuncInfo, problems): RemoteException.__init__ re-wraps every exception member of every EnsembleError."""
